@@ -18,22 +18,27 @@ static void *verif_realloc(void *old, size_t n) {
   g_allocs++; g_reallocs++;
   size_t nc = n / sizeof(struct Elem);
   size_t oc = 0;
+  _Bool moved = 0;
   if (old != 0) {
     oc = __CPROVER_OBJECT_SIZE(old) / sizeof(struct Elem);
     g_frees++;
     if (__CPROVER_POINTER_OBJECT(old) == g_wobj) {
-      if (g_wp < nc && g_wp < oc) {
-        ((struct Elem *)p)[g_wp] = ((struct Elem *)old)[g_wp];
-        g_wobj = __CPROVER_POINTER_OBJECT(p);        /* the watched slot moves with the block */
+      if (g_wp < nc) {
+        if (g_wp < oc) ((struct Elem *)p)[g_wp] = ((struct Elem *)old)[g_wp];
+        g_wobj = __CPROVER_POINTER_OBJECT(p);        /* the watched slot (existing or future) moves with the block */
+        moved = 1;
       } else {
-        __CPROVER_assert(((struct Elem *)old)[g_wp].life != LIVE, "C09 no live element is cut off by realloc");
+        if (g_wp < oc)
+          __CPROVER_assert(((struct Elem *)old)[g_wp].life != LIVE, "C09 no live element is cut off by realloc");
         g_freed_w = 1;
       }
     }
     free(old);
   }
-  if (g_np >= oc && g_np < nc && !(g_wobj == __CPROVER_POINTER_OBJECT(p) && g_np == g_wp && g_wp < oc))
-    __CPROVER_assume(((struct Elem *)p)[g_np].life == RAW);
+  if (!moved) __CPROVER_assume(g_wobj != g_newobj);
+  /* storage beyond the old block is raw: instantiated at g_np and at the watched slot */
+  if (g_np >= oc && g_np < nc) __CPROVER_assume(((struct Elem *)p)[g_np].life == RAW);
+  if (moved && g_wp >= oc && g_wp < nc) __CPROVER_assume(((struct Elem *)p)[g_wp].life == RAW);
   return p;
 }
 
